@@ -370,13 +370,13 @@ pub fn run(cfg: &Cfg) -> Report {
     let mut report = Report::new(cfg);
     let seed = cfg.seed;
     let mut bases: Vec<MSym> = vec![];
-    for s in gen::connected_sets_upto(2, cfg.tier.pick(4, 5)) {
+    for s in gen::connected_sets_upto(2, cfg.tier.pick(5, 6)) {
         if gen::adjacent_orbits(&s).len() <= 5 {
             gen::for_all_branchings(&s, &|_, _| vec![1, 2, 3], &mut |x| bases.push(x.clone()));
         }
     }
     let mut rng0 = Rng::stream(seed, 5);
-    for s in gen::connected_sets_upto(3, cfg.tier.pick(2, 3)) {
+    for s in gen::connected_sets_upto(3, cfg.tier.pick(3, 4)) {
         if gen::adjacent_orbits(&s).len() <= 3 {
             gen::for_all_branchings(&s, &|_, _| vec![1, 2, 3, 4], &mut |x| bases.push(x.clone()));
         } else {
@@ -392,7 +392,7 @@ pub fn run(cfg: &Cfg) -> Report {
             }
         }
     }
-    let kmax = cfg.tier.pick(4, 5);
+    let kmax = cfg.tier.pick(4, 6);
     let ctx = par_items(cfg, &bases, |ctx, idx, b| {
         let mut rng = Rng::stream(seed, 0x05_0000 + idx as u64);
         judge_oriented(ctx, b);
